@@ -54,7 +54,7 @@ package keeper
 //@   props C09
 //@   modifies wrk_store
 //@   ensures wrkHighestIs(wrk_store, wrkChainID)
-//@   ensures forall k wrkchain.Key :: k != kHighest ==> wrk_store[k] == old(wrk_store)[k]
+//@   ensures wrk_store == old(wrk_store)[kHighest := wrk_store[kHighest]]
 
 // ---------------------------------------------------------------- storage limits
 
@@ -189,10 +189,11 @@ package keeper
 //@   ensures @needs_highest (err == nil) == wrkHighestSet(old(wrk_store))
 //@   ensures @fail_nochange err != nil ==> wrk_store == old(wrk_store)
 //@   ensures @id err == nil ==> wrkHighestIs(old(wrk_store), id) && wrkHighestIs(wrk_store, wrapu64(id + 1))
-//@   ensures @stored err == nil ==> wcHas(wrk_store, id) && w1.WrkchainId == id && w1.Moniker == moniker && w1.Name == wrkchainName && w1.Genesis == genesisHash && w1.Type == baseType && w1.Owner == strOf(owner)
+//@   ensures @stored err == nil ==> wcHas(wrk_store, id) && w1.WrkchainId == id && w1.Moniker == moniker && w1.Name == wrkchainName && w1.Genesis == genesisHash && w1.Type == baseType
+//@   ensures @owner err == nil && 1 <= len(owner) && len(owner) <= 255 ==> validBech32(w1.Owner) && sameAddr(addrOf(w1.Owner), owner)
 //@   ensures @counters err == nil ==> w1.Lastblock == 0 && w1.NumBlocks == 0 && w1.LowestHeight == 0 && w1.RegTime == unixSecs(blockTime(ctx))
 //@   ensures @limit err == nil ==> limHas(wrk_store, id) && limGet(wrk_store, id) == wrkParams(old(wrk_store)).DefaultStorageLimit
-//@   ensures @frame err == nil ==> forall k wrkchain.Key :: k != kWrkChain(id) && k != kLimit(id) && k != kHighest ==> wrk_store[k] == old(wrk_store)[k]
+//@   ensures @frame err == nil ==> wrk_store == limPut(wcPut(old(wrk_store), w1), id, limGet(wrk_store, id))[kHighest := wrk_store[kHighest]]
 
 //@ func Keeper.IncreaseInStateStorage(ctx, wrkchainId, amount) (err)
 //@   props C08
@@ -206,3 +207,71 @@ package keeper
 //@   requires wrkParamsSet(wrk_store)
 //@   ensures limHas(wrk_store, wrkchainId) ==> n == max(0, wrkParams(wrk_store).MaxStorageLimit - limGet(wrk_store, wrkchainId))
 //@   ensures !limHas(wrk_store, wrkchainId) ==> n == 0
+
+// ================================================================ Layer L3: message server (entry points)
+//
+// Module invariants WRK_ALL and WRK_FRESH are required and re-established by every state-changing entry point.
+
+//@ func msgServer.RecordWrkChainBlock(goCtx, msg) (resp, err)
+//@   props C07 C08 C09 C13
+//@   requires WRK_ALL(wrk_store)
+//@   requires 0 <= unixSecs(blockTime(goCtx)) && unixSecs(blockTime(goCtx)) < 2^63
+//@   requires wcHas(wrk_store, msg.WrkchainId) ==> wcGet(wrk_store, msg.WrkchainId).NumBlocks < 2^64 - 1
+//@   let id := msg.WrkchainId
+//@   let s0 := old(wrk_store)
+//@   let w0 := wcGet(old(wrk_store), msg.WrkchainId)
+//@   let w1 := wcGet(wrk_store, msg.WrkchainId)
+//@   let rec := mkBlock(msg.Height, msg.BlockHash, msg.ParentHash, msg.Hash1, msg.Hash2, msg.Hash3, unixSecs(blockTime(goCtx)))
+//@   modifies wrk_store
+//@   ensures @rejected_changes_nothing err != nil ==> wrk_store == old(wrk_store)
+//@   ensures @owner_only err == nil ==> wcHas(s0, id) && validBech32(msg.Owner) && validBech32(w0.Owner) && sameAddr(addrOf(msg.Owner), addrOf(w0.Owner))
+//@   ensures @height_strictly_above err == nil ==> msg.Height > w0.Lastblock
+//@   ensures @recorded_exactly err == nil ==> blkHas(wrk_store, id, msg.Height) && blkGet(wrk_store, id, msg.Height) == rec
+//@   ensures @others_untouched err == nil ==> forall i uint64, h uint64 :: {wrk_store[kBlock(i, h)]} !(i == id && (h == msg.Height || h == w0.LowestHeight)) ==> wrk_store[kBlock(i, h)] == s0[kBlock(i, h)]
+//@   ensures @prune_only_when_full err == nil && w0.NumBlocks + 1 <= limGet(s0, id) ==> wrk_store[kBlock(id, w0.LowestHeight)] == s0[kBlock(id, w0.LowestHeight)] || w0.LowestHeight == msg.Height
+//@   ensures @prune_lowest_when_full err == nil && w0.NumBlocks + 1 > limGet(s0, id) ==> !blkHas(wrk_store, id, w0.LowestHeight)
+//@   ensures @counters err == nil ==> w1.NumBlocks == min(w0.NumBlocks + 1, limGet(s0, id)) && w1.Lastblock == msg.Height
+//@   ensures @identity_immutable err == nil ==> wcSameIdentity(w1, w0)
+//@   ensures @frame err == nil ==> forall k wrkchain.Key :: {wrk_store[k]} !(k == kWrkChain(id) || k == kBlock(id, msg.Height) || k == kBlock(id, w0.LowestHeight)) ==> wrk_store[k] == s0[k]
+//@   ensures @response err == nil ==> resp.WrkchainId == id && resp.Height == msg.Height
+//@   ensures @inv WRK_ALL(wrk_store)
+
+//@ func msgServer.RegisterWrkChain(goCtx, msg) (resp, err)
+//@   props C08 C09 C13
+//@   requires WRK_ALL(wrk_store) && WRK_FRESH(wrk_store) && wrkParamsSet(wrk_store)
+//@   requires wrkParams(wrk_store).DefaultStorageLimit >= 1
+//@   requires 0 <= unixSecs(blockTime(goCtx)) && unixSecs(blockTime(goCtx)) < 2^63
+//@   requires wrkHighestSet(wrk_store) ==> u64dec(wrk_store[kHighest]) < 2^64 - 1
+//@   let s0 := old(wrk_store)
+//@   let id := resp.WrkchainId
+//@   let w1 := wcGet(wrk_store, resp.WrkchainId)
+//@   modifies wrk_store
+//@   ensures @rejected_changes_nothing err != nil ==> wrk_store == s0
+//@   ensures @next_unused_id err == nil ==> wrkHighestIs(s0, id) && !wcHas(s0, id) && wrkHighestIs(wrk_store, id + 1)
+//@   ensures @stored_as_submitted err == nil ==> wcHas(wrk_store, id) && w1.WrkchainId == id && w1.Moniker == msg.Moniker && w1.Name == msg.Name && w1.Genesis == msg.GenesisHash && w1.Type == msg.BaseType
+//@   ensures @owner_is_signer err == nil ==> validBech32(msg.Owner) && validBech32(w1.Owner) && sameAddr(addrOf(w1.Owner), addrOf(msg.Owner))
+//@   ensures @counters_zero err == nil ==> w1.Lastblock == 0 && w1.NumBlocks == 0 && w1.LowestHeight == 0
+//@   ensures @limit_is_default err == nil ==> limHas(wrk_store, id) && limGet(wrk_store, id) == wrkParams(s0).DefaultStorageLimit
+//@   ensures @frame err == nil ==> forall k wrkchain.Key :: {wrk_store[k]} !(k == kWrkChain(id) || k == kLimit(id) || k == kHighest) ==> wrk_store[k] == s0[k]
+//@   ensures @inv WRK_ALL(wrk_store) && WRK_FRESH(wrk_store)
+
+//@ func msgServer.PurchaseWrkChainStateStorage(goCtx, msg) (resp, err)
+//@   props C08 C09 C13
+//@   requires WRK_ALL(wrk_store) && wrkParamsSet(wrk_store)
+//@   let id := msg.WrkchainId
+//@   let s0 := old(wrk_store)
+//@   let w0 := wcGet(old(wrk_store), msg.WrkchainId)
+//@   modifies wrk_store
+//@   ensures @rejected_changes_nothing err != nil ==> wrk_store == s0
+//@   ensures @owner_only err == nil ==> wcHas(s0, id) && validBech32(msg.Owner) && validBech32(w0.Owner) && sameAddr(addrOf(msg.Owner), addrOf(w0.Owner))
+//@   ensures @limit_exact err == nil ==> wrk_store == limPut(s0, id, limGet(s0, id) + msg.Number) && msg.Number >= 1
+//@   ensures @never_above_max err == nil ==> limGet(wrk_store, id) <= wrkParams(s0).MaxStorageLimit
+//@   ensures @response err == nil ==> resp.WrkchainId == id && resp.NumberPurchased == msg.Number && resp.NumCanPurchase == max(0, wrkParams(s0).MaxStorageLimit - limGet(wrk_store, id))
+//@   ensures @inv WRK_ALL(wrk_store)
+
+//@ func msgServer.UpdateParams(goCtx, req) (resp, err)
+//@   props C13 C16
+//@   modifies wrk_store
+//@   ensures @authority_only err == nil ==> req.Authority == k.Keeper.authority
+//@   ensures @rejected_changes_nothing err != nil ==> wrk_store == old(wrk_store)
+//@   ensures @valid_and_stored err == nil ==> wrk_store == wrkParamsPut(old(wrk_store), req.Params) && validDenom(req.Params.Denom) && req.Params.FeeRegister >= 1 && req.Params.FeeRecord >= 1 && req.Params.FeePurchaseStorage >= 1 && req.Params.DefaultStorageLimit >= 1 && req.Params.DefaultStorageLimit <= req.Params.MaxStorageLimit
